@@ -801,7 +801,7 @@ class Extractor:
                 return it
         raise ExtractionError("arm block not found")
 
-    def if_blocks(self, file, fn_name, if_lit, name=None, after=None, nth=1):
+    def if_blocks(self, file, fn_name, if_lit, name=None, after=None, nth=1, need_else=True):
         """(then_item, else_item): inner texts of the `{..}` blocks of the `if` whose text starts at if_lit inside fn fn_name."""
         src = self.read(file)
         toks, idx = self._find_item(src, "fn", fn_name, after, nth)
@@ -824,7 +824,7 @@ class Extractor:
             c2 = match_brace(src, toks, close + 2)
             out.append(Item(self, file, (name or fn_name) + "_else", src[toks[close + 2][2]:toks[c2][1]],
                             line_of(src, toks[close + 2][2]), line_of(src, toks[c2][1]), "slice"))
-        else:
+        elif need_else:
             raise ExtractionError("else-block not found after %r" % if_lit)
         for it in out:
             it.dropped = "rest of fn %s outside the if/else at `%s`" % (fn_name, if_lit)
